@@ -56,6 +56,10 @@ DONE = {
   text="Scripted peers play every frame sequence of length <= 3 (thorough <= 4) over a 9-symbol alphabet (handshake for a known / unknown document, live replies of a real replica, unexpected well-formed messages, aborts, undecodable / oversized / truncated frames, close), plus generated longer ones, against the real accepting side (run + into_outcome, every accept decision) and the real initiating side over in-memory streams; and the real initiator and acceptor talk through a proxy that injects, before every frame index on either side, one of: replica closed, sync disabled, store actor stopped (with the exit-pause hook so that the next request lands in the shutdown window), stream cut inside the frame as EOF or as reset. Completion within a watchdog, absence of panics on every thread, abort frame and untouched store on decline, and mirrored counters / merged stores in fault-free runs are asserted.",
   note="QUIC streams are replaced by tokio duplex streams; a hang must reproduce three times to be reported; functional equality is asserted only for fault-free runs.",
   technique="exhaustive small-scope enumeration of frame scripts and fault positions + generated longer scripts (proptest), completion/no-panic/differential oracles"),
+ "C08": dict(level="exploration",
+  text="The crate's own generic reconciliation routine and put are run over a BTreeMap backend written in the harness (adapter hook) and over in-memory and file-backed redb replicas for the same generated entry lists and parameters: byte-equality of every message of the three transcripts and equal final sets. Generated storage-primitive calls (ranges incl. wrap-around and x=y, first key, fingerprints, prefix lookups, filtered prefix removals, puts) are executed on the redb store and on the textbook BTreeMap definitions: equal results, order and post-states.",
+  note="The BTreeMap definitions are the oracle; single-document stores only (ranges naming another document's ids are not claimed by the property).",
+  technique=PBT + ": differential between the redb backend and a reference ordered map, transcript byte-equality"),
  "C05": dict(level="exploration",
   text="For generated replica states, generated queries over the full product of query options are compared, as exact sequences, with a naive filter/group/sort/skip/take executor over the store's actual contents; point lookups and the two physical access paths are cross-checked.",
   note="Latest-per-key semantics as documented on Query (author filter after grouping); ties between authors at the greatest timestamp are judged by a validity predicate or skipped and counted.",
